@@ -61,7 +61,28 @@ func c20OneOutcome(c *Ctx) {
 			rv := RetVals(ret)
 			// the value may be merged from several places (phi): every source must be an allowed one
 			good := true
+			var sources []ssa.Value
 			for _, e := range phiEdges(rv[len(rv)-1]) {
+				// a value read back from a local variable cell (the named result, when a `:=` in the body's own scope
+				// re-uses it): what was stored there
+				if u, isU := e.(*ssa.UnOp); isU && u.Op == token.MUL {
+					if cell, isA := u.X.(*ssa.Alloc); isA && plainCell(cell) {
+						for _, ref := range *cell.Referrers() {
+							if st, isS := ref.(*ssa.Store); isS && st.Addr == ssa.Value(cell) {
+								for _, sv := range phiEdges(st.Val) {
+									if u2, isU2 := sv.(*ssa.UnOp); isU2 && u2.Op == token.MUL && u2.X == ssa.Value(cell) {
+										continue // the variable copied onto itself (`return …, err` with err the named result)
+									}
+									sources = append(sources, sv)
+								}
+							}
+						}
+						continue
+					}
+				}
+				sources = append(sources, e)
+			}
+			for _, e := range sources {
 				g := IsNil()(e) || FieldLoad("producerExpectation.Result")(e) || GlobalLoad("errOutOfExpectations")(e)
 				if _, isEx := e.(*ssa.Extract); isEx {
 					g = true // error result of the partitioner call
